@@ -1,0 +1,9 @@
+//go:build verif
+
+package deletionmanager
+
+// VerifDeleter returns the deleter a DeletionManager built in Init, so that a verification harness can call
+// Deleter.Delete step by step instead of through the background delete loop. No behaviour change.
+func VerifDeleter(dm DeletionManager) Deleter {
+	return dm.(*deletionManager).deleter
+}
